@@ -247,6 +247,7 @@ func init() {
 func c11A3(c *Ctx) {
 	r := c.R
 	r.Clause("C11-A3", "an erroring handler leaves nothing behind: batch abort on error; non-aborting errors only with a clean batch; no value stored that came with an unchecked error")
+	c07AbortClears(c, "C11-A3")
 	// (i) the apply loop aborts the shared batch when the handler fails
 	if u := c.unit("C11-A3", "node.(*kvStoreSM).ApplyRaftRequest"); u != nil {
 		h := u.Match(an.DynCall("h"))
